@@ -171,6 +171,8 @@ class Gen:
             rec["bill"] = r.choice(["monthly", "bimonthly"])
         if self.mode == "C03" and dfam in ("daily", "hourly") and r.random() < 0.3:
             return self._portfolio_base(dfam, r.choice(PORTFOLIO[dfam]))
+        if rec["entry"] == "series" and dfam != "hourly" and r.random() < 0.3:
+            rec["feed"] = r.choice([1, 2, 3])   # another legal shape of the two series (UTC weather feed, frames, own names)
         return rec
 
     @staticmethod
@@ -206,6 +208,12 @@ class Gen:
             rec["entry"] = r.choice(["series", "frame"])
             if dfam in ("daily", "hourly") and r.random() < 0.15:
                 rec["entry"] = "frame_col"
+        if rec.get("entry") in ("frame", "frame_col") and dfam in ("daily", "hourly") and base.get("src") != "sample" \
+                and r.random() < 0.2:
+            rec["dup"] = 1    # a feed that re-sends some timestamps (the first record of a timestamp counts)
+        rec.pop("feed", None)
+        if rec.get("entry") == "series" and dfam != "hourly" and base.get("src") != "sample" and r.random() < 0.3:
+            rec["feed"] = r.choice([1, 2, 3])
         if foreign_tz:
             others = [t for t in C.TZS if t != base["tz"]]
             if r.random() < 0.5:
@@ -365,6 +373,9 @@ class Gen:
             if self.models[m0]["fam"] in ("daily", "billing"):
                 self.emit("PREDICT_GRID", m=m0, d=N_DATA_SLOTS - 1)
             doc = self.store(m0)
+            # every crash point of one to_json and one from_dict of this model
+            self.emit("SERIAL_ABORT_SWEEP", m=m0, exc=r.choice(["MemoryError", "KeyboardInterrupt"]))
+            self.cost += 1.0
             if self.swarm["faults"]["crash"]:
                 self.crash()
             # a restored object meets a short window first and a longer one afterwards, twice over
@@ -383,6 +394,27 @@ class Gen:
                 self.emit("PREDICT_GRID", m=m2, d=N_DATA_SLOTS - 1)
                 self.cost += 1.0
             self.emit("INSPECT", m=m2)
+            # the unchanged document is read twice: the first object read back is fitted again on another meter in
+            # between (what a caller may do with an object it owns), the second read-back must still be the stored model
+            mm = self.models[m2]
+            if mm["fam"] != "caltrack" and FIT_COST.get((mm["fam"], mm["profile"]), FIT_COST.get(mm["fam"], 1)) <= 2.5:
+                m3 = self.load(doc2, mslot=m1, form="json")
+                other = {k: v for k, v in self._new_base(mm["fam"]).items() if k != "defect"}
+                if P.needs_ghi(mm["fam"], mm["profile"]):
+                    other["ghi"] = True
+                    if other.get("src") == "sample":
+                        other.pop("src")
+                        other["mid"] += 100
+                if P.needs_extra(mm["fam"], mm["profile"]):
+                    other["extra"] = True
+                    if other.get("src") == "sample":
+                        other.pop("src")
+                        other["mid"] += 100
+                db = self.make_data(other)
+                self.fit(mm["fam"], db, profile=mm["profile"], ignore=True, mslot=m3, reuse=True, allow_abort=False)
+                m4 = self.load(doc2, mslot=m2, form="json")
+                self.predict(m4, d_l, ignore=True)
+                self.store(m4)
         elif mode == "C02":
             # spans of growing length over the same weeks: one day, the month around it, then whatever was drawn
             d1 = self.make_data(self._reporting(base0, span="day", obs="present", tgap=0))
@@ -413,6 +445,9 @@ class Gen:
             doc = self.store(m0)
             # the same history on a restored object: short span first, then the longer ones
             m1 = self.load(doc)
+            # every crash point of the serialisation calls, on the restored object
+            self.emit("SERIAL_ABORT_SWEEP", m=m1, exc=r.choice(["MemoryError", "KeyboardInterrupt"]))
+            self.cost += 1.0
             self.predict(m1, d1, ignore=True)
             self.predict(m1, dm, ignore=True)
             self.predict(m1, ds[0], ignore=True)
@@ -451,6 +486,7 @@ class Gen:
             dx = self.make_data(self._reporting({k: v for k, v in self._new_base(ofam).items() if k != "defect"},
                                                 span=r.choice(["week", "month"])))
             self.predict(m2, dx, ignore=True)
+            self._refused_refits(m0, base0, dx)
             self._refit_flipped(m0, base0, also_fresh=False)
         elif mode == "C05":
             rec = self._reporting(base0, obs="present")
@@ -464,6 +500,12 @@ class Gen:
             rec3 = dict(rec2, obs="partnan", tgap=0)
             self.emit("PREDICT_PAIR", m=m0, recipe=rec3, alter="partnan2", seq=True)
             self.emit("PREDICT_PAIR", m=m0, recipe=dict(rec2, tgap=0), alter="monthnan")
+            if base0["fam"] != "hourly" and base0.get("src") != "sample":
+                # the call form that omits the meter series, against the form that passes it, with the weather feed in UTC
+                rec4 = dict(rec2, tgap=0, entry="series", feed=r.choice([1, 2]))
+                rec4.pop("dup", None)
+                self.emit("PREDICT_PAIR", m=m0, recipe=rec4, alter="absent")
+                self.cost += 2 * PRED_COST.get(self.models[m0]["fam"], 0.3)
             # the object is stored AFTER its short prediction and the pair is asked of the restored copy
             doc = self.store(m0)
             m1 = self.load(doc)
@@ -472,6 +514,43 @@ class Gen:
             if self.models[m0]["fam"] == "billing":
                 self.emit("PREDICT_PAIR", m=m0, recipe=dict(rec2, tgap=0), alter="scaled", agg=r.choice(["monthly", "bimonthly"]))
             self.cost += 4 * PRED_COST.get(self.models[m0]["fam"], 0.3)
+
+    def _refused_refits(self, m0, base0, d_foreign):
+        """The fitted object is handed to fit() again and the call is refused by a guard: foreign data type,
+        disqualified baseline without the override, a baseline lacking a feature the profile names.  Nothing was
+        fitted, so the object is still the model it was: the gate must decide as before, live and after storage."""
+        r = self.rng
+        m = self.models.get(m0)
+        if not m or m["fam"] == "caltrack":
+            return
+        fam, profile = m["fam"], m["profile"]
+        keep = dict(m)
+        ds = self._data_for(m0)
+        self.fit(fam, d_foreign, profile=profile, ignore=True, mslot=m0, reuse=True, allow_abort=False)
+        self.models[m0] = dict(keep)
+        # a baseline of the other sufficiency class than the model's own, refused for want of the override
+        other = {k: v for k, v in base0.items() if k not in ("defect", "src")}
+        if base0.get("src") == "sample":
+            other["mid"] = 100 + base0["mid"]
+        other["defect"] = r.choice(["short", "long"] if fam == "billing" else ["short", "gaps", "long"])
+        d_dq = self.make_data(other)
+        self.fit(fam, d_dq, profile=profile, ignore=False, mslot=m0, reuse=True, allow_abort=False)
+        self.models[m0] = dict(keep)
+        if P.needs_ghi(fam, profile):
+            nog = dict(other, ghi=False)
+            if not base0.get("defect"):
+                nog["defect"] = "short"
+            else:
+                nog.pop("defect", None)
+            d_ng = self.make_data(nog)
+            self.fit(fam, d_ng, profile=profile, ignore=True, mslot=m0, reuse=True, allow_abort=False)
+            self.models[m0] = dict(keep)
+        if ds:
+            self.predict(m0, ds[0], ignore=False)
+            self.predict(m0, ds[0], ignore=True)
+            doc = self.store(m0)
+            mr = self.load(doc)
+            self.predict(mr, ds[0], ignore=False)
 
     def _refit_flipped(self, m0, base0, also_fresh):
         """The same HourlyModel object fitted again on a baseline of the other GHI-ness; optionally a fresh model on the
@@ -603,11 +682,11 @@ class Gen:
         weights = {
             "make_reporting": 3, "make_baseline": 1.2, "fit": 1.6, "fit_shared": 0.5, "refit_key": 0.4, "refit_other": 0.5, "portfolio": 0.0, "predict": 7,
             "predict_odd": 0.6, "pair": 1.0, "store": 1.6, "load": 1.6, "store_load_predict": 0.8, "crash": 0.5,
-            "scribble_data": 0.5, "scribble_pred": 0.5, "abort_sweep": 0.15, "grid": 0.3, "inspect": 0.4, "new_model": 0.25, "fault": 1.6,
+            "scribble_data": 0.5, "scribble_pred": 0.5, "abort_sweep": 0.15, "serial_sweep": 0.12, "grid": 0.3, "inspect": 0.4, "new_model": 0.25, "fault": 1.6,
         }
         mult = {
-            "C01": {"grid": 4, "store": 2.5, "load": 2.5, "store_load_predict": 4, "crash": 2.5, "fit": 1.3, "refit_other": 2},
-            "C02": {"predict": 1.4, "refit_other": 2, "abort_sweep": 5, "scribble_data": 2, "scribble_pred": 2, "fit_shared": 3, "inspect": 2,
+            "C01": {"grid": 4, "serial_sweep": 4, "store": 2.5, "load": 2.5, "store_load_predict": 4, "crash": 2.5, "fit": 1.3, "refit_other": 2},
+            "C02": {"predict": 1.4, "refit_other": 2, "abort_sweep": 5, "serial_sweep": 3, "scribble_data": 2, "scribble_pred": 2, "fit_shared": 3, "inspect": 2,
                     "make_reporting": 1.3},
             "C03": {"refit_key": 9, "refit_other": 2, "portfolio": 1, "fit": 1.5, "fault": 2.5, "crash": 1.5, "predict": 0.6},
             "C04": {"new_model": 4, "predict_odd": 5, "make_baseline": 2.5, "fit": 2, "store_load_predict": 2,
@@ -819,6 +898,14 @@ class Gen:
                 d = self.make_data(self._reporting(self.models[ms]["base"], span=r.choice(["day", "week"])))
                 self.emit("ABORT_SWEEP", m=ms, d=d, exc=r.choice(["MemoryError", "KeyboardInterrupt"]))
                 self.cost += 1.5
+            elif op == "serial_sweep":
+                if not fitted or not sw["faults"]["abort"]:
+                    continue
+                ms = r.choice(fitted)
+                if self.models[ms]["fam"] == "caltrack" and r.random() < 0.6:
+                    continue
+                self.emit("SERIAL_ABORT_SWEEP", m=ms, exc=r.choice(["MemoryError", "KeyboardInterrupt"]))
+                self.cost += 1.0 if self.models[ms]["fam"] != "caltrack" else 30
             elif op == "grid":
                 cands = [m_ for m_ in fitted if self.models[m_]["fam"] in ("daily", "billing")]
                 if cands:
